@@ -201,12 +201,8 @@ func (ns *normState) bodyInlinable(c *inlCallee) bool {
 					walk(x.Body, true)
 				}
 				return false
-			case *ast.DeferStmt, *ast.LabeledStmt, *ast.GoStmt:
+			case *ast.DeferStmt, *ast.GoStmt:
 				ok = false
-			case *ast.BranchStmt:
-				if x.Tok == token.GOTO || x.Label != nil {
-					ok = false
-				}
 			case *ast.ReturnStmt:
 				if !inLit && named && len(x.Results) == 0 {
 					// bare return with named results is supported, nothing to do
@@ -290,7 +286,7 @@ func (ns *normState) localIdentEdits(c *inlCallee, suffix string, from, to token
 		switch o := obj.(type) {
 		case *types.Var:
 			return !o.IsField()
-		case *types.Const, *types.TypeName:
+		case *types.Const, *types.TypeName, *types.Label:
 			return true
 		}
 		return false
